@@ -369,6 +369,12 @@ async def run_commands_sequence(r, seq, scheme, idx):
     json.dump(ids, open(db_path, "w"))
     sname = f"alias-{idx}-{rng.getrandbits(40)}"
     flags, server_state, sid, key_bytes = 0, 0, None, None
+    # a second, untouched service of the same client (created up front, never used): commands may name its alias
+    decoy_alias, decoy_sid = sname + "-other", None
+    if rng.random() < 0.6:
+        with cl.redirect_stdout(io.StringIO()):
+            cmds.create_service(cfg_path, decoy_alias)
+        decoy_sid = snh.read_service_mapping().get(decoy_alias)
     trace = []
     case = {"scheme": scheme, "sequence": list(seq), "trace": trace, "layer": "commands"}
 
@@ -426,20 +432,31 @@ async def run_commands_sequence(r, seq, scheme, idx):
                   "search": bool(flags & B_DBUP)}[op]
         snap_before = snapshot(os.path.join(r.client_root, sid)) if sid else {}
         mapping_before = dict(snh.read_service_mapping())
+        # how the service is addressed: by its alias; by its sid; or by its sid together with the alias of ANOTHER service
+        # (run_client.py accepts both options at once and the sid decides) - the other service must never be touched
+        addr = {"sname": sname}
+        if sid is not None and op not in ("create", "create-dup"):
+            how = rng.random()
+            if how < 0.25:
+                addr = {"sid": sid}
+            elif how < 0.55 and decoy_sid is not None:
+                addr = {"sid": sid, "sname": decoy_alias}
+                acc.count("commands_given_sid_and_another_alias")
+        decoy_before = snapshot(os.path.join(r.client_root, decoy_sid)) if decoy_sid else {}
         try:
             with cl.redirect_stdout(out):
                 if op in ("create", "create-dup"):
                     cmds.create_service(cfg_path, sname)
                 elif op == "key":
-                    cmds.generate_key(sname=sname)
+                    cmds.generate_key(**addr)
                 elif op == "encrypt":
-                    cmds.encrypt_database(db_path, sname=sname)
+                    cmds.encrypt_database(db_path, **addr)
                 elif op == "upcfg":
-                    await asyncio.wait_for(cmds.upload_config(sname=sname), 10)
+                    await asyncio.wait_for(cmds.upload_config(**addr), 10)
                 elif op == "upedb":
-                    await asyncio.wait_for(cmds.upload_encrypted_database(sname=sname), 10)
+                    await asyncio.wait_for(cmds.upload_encrypted_database(**addr), 10)
                 else:
-                    await asyncio.wait_for(cmds.search("kw1", "hex", sname=sname), 10)
+                    await asyncio.wait_for(cmds.search("kw1", "hex", **addr), 10)
         except asyncio.TimeoutError:
             acc.count("timeouts")
             return
@@ -449,7 +466,11 @@ async def run_commands_sequence(r, seq, scheme, idx):
             return
         text = out.getvalue()
         accepted = ("successfully" in text or ">>> The result is" in text) and "error" not in text.lower()
-        trace.append([op, "accepted" if accepted else "refused", text.strip()[-90:]])
+        trace.append([op, "accepted" if accepted else "refused", text.strip()[-90:], sorted(addr)])
+        if decoy_sid and snapshot(os.path.join(r.client_root, decoy_sid)) != decoy_before:
+            viol(f"another-service-touched:{op}", f"{op} addressed with {sorted(addr)} changed the files of another service "
+                                                  f"(the one whose alias was given beside the sid)")
+            return
         acc.count("command_ops")
         if op == "create" and accepted and sid is None:
             sid = snh.read_service_mapping().get(sname)
